@@ -27,6 +27,10 @@ CHECKS = {
   text="Bounded symbolic model checking of build_area_rows / pack / Row / adjust_cross_origin_area / Area on regions built by the real formation code from <= 2 protoclusters (core inside extent, extent and optionally core spanning the origin) and an optional subregion with symbolic coordinates and record length (linear, circular, origin-spanning and whole-record regions): every protocluster / shown candidate / subregion is drawn once or as two halves with the same group; same-row areas do not overlap; every extent lies in the announced range; a protocluster's core lies inside its extent; and for every genome position x the drawn extent and core, in drawing coordinates (positions after the origin shifted by the record length), are exactly the feature's extent and core.",
   note="Genes (convert_cds_features) need the HTML description builders and are not explored; set iteration order pinned to hash(product); more than 2 protoclusters / 1 subregion outside the claim.",
   ref="3/C19"),
+ "C20": dict(
+  text="Bounded symbolic checking of AntismashResults.write_to_file / dump_records with the position of the failing JSON conversion as a symbolic integer over every eager (module to_json) and late (converted while the text is produced) conversion of R <= 2 records x M <= 2 modules, plus 'no fault', against an in-memory file system in which opening for writing truncates: a fault is reported and the pre-existing file is byte-for-byte unchanged and never opened; without a fault the new JSON is written; and of prepare_output_directory over all 256 combinations of directory contents / run mode given as symbolic booleans: refuses iff foreign content and not reusing, a refusal changes nothing, only old region GenBank files are ever removed.",
+  note="File system and os/glob are models (stubs listed in the evidence); real disks, partial writes and the ordering inside _run_antismash are outside the claim. The input space is finite; the solver's share is the case split on the symbolic fault position / flags and the per-path obligations.",
+  ref="3/C20"),
  "C01": dict(
   text="Bounded symbolic model checking of the real rule evaluator (DetectionRule.detect and every Conditions subclass) on condition trees parsed from text by the real Parser: for each enumerated tree (22 quick / ~150 thorough; not/and/or/groups/cds/minimum/minscore over 2 profiles) the evaluation at a gene with 2 neighbours is executed on symbolic gene coordinates, cutoff, record length, hit presence (booleans) and bitscores (reals), and z3 must answer unsat for path /\\ not(documented formula) for met, the reason profiles and the anchoring decision; distance-at-cutoff and across-origin cases are solver-chosen.",
   note="Trees are enumerated (the programs axis is sampled, inputs are symbolic). Details.in_range is explored as a function summary (same code). 3 genes, 2 profiles; minscore inside cds() is outside the documented grammar and not claimed.",
